@@ -27,7 +27,7 @@ def oracle(c):
         if k == 6:
             want = ("err", [11, c["abort"], c["idx"], c["sub"]])
         elif k == 7:
-            want = ("err", [10, 0x8130, 0x11])
+            want = ("err", [10, c.get("em_code", 0x8130), c.get("em_reg", 0x11)])
         elif k == 8:
             want = ("err", [12, (c["idx"] + 1) & 0xffff, c["sub"]])
         else:
@@ -50,7 +50,7 @@ def oracle(c):
         want_req = [10, 0, 0, 0, 0, 0x13, 0, 0x20, 0x23 | ((4 - c["wlen"]) << 2), c["idx"] & 0xff, c["idx"] >> 8, c["sub"]] + data
         if reqs[0][:16] != want_req:
             return "download-request", "sdo_write sent %s, expected %s" % (reqs[0][:16], want_req)
-        want = {6: ("err", [11, c["abort"], c["idx"], c["sub"]]), 7: ("err", [10, 0x8130, 0x11])}.get(k, ("ok", None))
+        want = {6: ("err", [11, c["abort"], c["idx"], c["sub"]]), 7: ("err", [10, c.get("em_code", 0x8130), c.get("em_reg", 0x11)])}.get(k, ("ok", None))
         got = ("ok", None) if c["res"] == "Ok" else ("err", err)
         if got != want:
             return "sdo-write", "sdo_write result %s, expected %s" % (got, want)
